@@ -131,6 +131,14 @@ def r2_move_complete(chk: Check):
     sym = [b for b in g.live if b.id in body and b.kind == "branch" and b.extra["test"].kind == "test" and src(b.extra["test"].ast) == f"{v}.is_symlink()" and b.extra["polarity"] is True]
     ok = len(ren) == 1 and len(unl) == 1 and len(sym) == 1 and g.must_pass(sym[0], lp, ren + unl)
     chk.require(ok, chk.fkey(f, "each link renamed or dropped"), "every symlink of the index must be either renamed into the backup or (when the backup already has it) unlinked", loc)
+    # which of the two: a link is dropped only when the backup already has an entry of that name, moved otherwise
+    rdm = ReachingDefs(g)
+    for nodes_, want_pol, what in ((unl, True, "dropped"), (ren, False, "moved")):
+        for n_ in nodes_:
+            gs_ = [(rdm.canon(t.ast, t), pol) for t, pol in g.guards(n_) if t.kind == "test"]
+            tgt = [(c_, pol) for c_, pol in gs_ if "jobsbakpath" in c_ and (c_.endswith(".is_symlink()") or c_.endswith(".exists()"))]
+            chk.require(len(tgt) == 1 and tgt[0][1] is want_pol, chk.fkey(f, f"link {what} by the state of the backup"), f"a link of the index is {what} under {gs_}: it must be dropped exactly when the backup "
+                        "index already holds that entry and moved there otherwise (a link dropped without being in the backup makes its job an orphan)", loc)
     if ren:
         c = [c for c in ren[0].calls() if tail(c) == "rename"][0]
         ok = "jobsbakpath" in ReachingDefs(g).canon(c.args[0], ren[0]) and "relative_to(self.jobspath)" in ReachingDefs(g).canon(c.args[0], ren[0])
